@@ -29,6 +29,18 @@ Definition server_accepts (c : tcase) : bool :=
 (* the client reaches the server: both handshakes sides complete and application data flows *)
 Definition reaches (c : tcase) : bool := client_accepts c && server_accepts c.
 
+(* ---- which name the client asks for (client/ws_connect.rs): --tls-server-name, else
+   --hostname, else the host of the URL; it is both the SNI and the name the certificate must match ---- *)
+Definition select_name (url_host : N) (hostname sni : option N) : N :=
+  match sni with
+  | Some n => n
+  | None => match hostname with Some h => h | None => url_host end
+  end.
+
+(* the harness's name codes: 1 "localhost" (the certificate's only name), 2 "other.example", 3 "127.0.0.1" *)
+Definition name_case_reaches (url_host : N) (hostname sni : option N) (skip : bool) : bool :=
+  reaches (mkT Trusted (select_name url_host hostname sni =? 1) skip CNone false).
+
 (* ---- the hot-swappable identity ---- *)
 (* identity = (which server certificate, client CA configured) *)
 Definition ident := (N * bool)%type.
@@ -72,5 +84,8 @@ Definition run_tls (c : list N) : list N :=
       let t := mkT (issuer_of sc) (nm =? 0) (negb (sk =? 0)) (ccert_of cc) (negb (ca =? 0)) in
       [b2n (reaches t); b2n (server_asks t)]
   | 2 :: cert :: ca :: r => irun (mkI (cert, negb (ca =? 0)) []) (parse_iev r)
+  | [3; url; hn; sni; sk] =>
+      let opt x := match x with 0 => None | _ => Some x end in
+      [b2n (name_case_reaches (match url with 0 => 3 | _ => 1 end) (opt hn) (opt sni) (negb (sk =? 0)))]
   | _ => MALFORMED
   end.
